@@ -226,7 +226,7 @@ def documented(scan, c):
 
 def sig(rec, clauses):
     comp = rec.get("comp") or rec.get("component")
-    if comp is None and rec.get("k") in ("equiv", "equivb"):
+    if comp is None and rec.get("k") in ("equiv", "equivb", "mequiv"):
         comp = "%s+%s+%s" % (rec.get("s"), rec.get("c"), rec.get("r"))
     if comp is None:
         comp = rec.get("w") or rec.get("cls") or rec.get("key") or rec.get("what") or "?"
@@ -292,7 +292,15 @@ def run(c):
             thunks.append(lambda x=x: try_build(name="c14_probe_" + x["id"].replace(".", "_"), sources=["record_params.cpp"],
                                                 flags=[inc, "-DC14_PART_SERIAL", "-DC14_PROBE_EXPORT",
                                                        '-DC14_ONLY_ID="%s"' % x["id"], "-DC14_ONLY_TYPE=T_" + x["id"].replace(".", "_")]))
+        # distributed compositions (mpicxx): 3 typed units + the run-time unit
+        nfixed = len(thunks)
+        for k in range(3):
+            thunks.append(lambda k=k: try_build(name="c14_mpi_typed%d" % k, sources=["record_equiv_mpi.cpp"], mpi=True,
+                                                flags=["-DC14_MPI_TYPED", "-DPART=%d" % k, "-DNPARTS=3"]))
+        thunks.append(lambda: try_build(name="c14_mpi_rt", sources=["record_equiv_mpi.cpp"], mpi=True, flags=["-DC14_MPI_RT"]))
         res = c.parallel(thunks, max_workers=12)
+        state["mpieq"] = res[nfixed:nfixed + 4]
+        res = res[:nfixed]
         state["params"], state["rt"], state["block"] = res[0], res[1], res[2]
         state["typed"] = res[3:3 + NPARTS]
         state["mpi"] = res[3 + NPARTS]
@@ -396,6 +404,37 @@ def run(c):
                       "rthrew", "rit", "rres_lo", "rres_hi", "rx_lo", "rx_hi", "rpx_lo", "rpx_hi"):
                 m[f] = t[f]
             lines.append(json.dumps(m))
+    # distributed typed vs run-time compositions on 1, 2 and 3 ranks
+    mb = state.get("mpieq") or []
+    if len(mb) == 4 and all(b[0] for b in mb):
+        menv = {"OMP_NUM_THREADS": 1, "OMPI_MCA_hwloc_base_binding_policy": "none", "OMPI_MCA_mpi_yield_when_idle": 1}
+        for np_ in (1, 2, 3):
+            typed, rt = {}, {}
+            for k in range(4):
+                out = c.record(mb[k][0], [], out=c.path("mpieq-%d-%d.ndjson" % (k, np_)), env=menv, mpi=np_, timeout=600,
+                               sig={"component": "mpi-equivalence", "ranks": np_})
+                for ln in open(out).read().splitlines():
+                    if not ln.startswith("{"):
+                        continue
+                    r = json.loads(ln)
+                    if r.get("k") == "mtyped":
+                        typed[(r["idx"], r["mat"], r["cfg"])] = r
+                    elif r.get("k") == "mrt":
+                        rt[(r["idx"], r["mat"], r["cfg"])] = r
+                    elif r.get("e") not in (None, "End"):
+                        lines.append(ln)
+            for key in sorted(set(typed) | set(rt)):
+                t, r = typed.get(key), rt.get(key)
+                if t is None or r is None:
+                    lines.append(json.dumps({"e": "missing-mpi-%s-side" % ("typed" if t is None else "runtime"), "case": list(key), "np": np_}))
+                    continue
+                m = dict(r); m["k"] = "mequiv"
+                for f in ("threw", "exc", "it", "res_lo", "res_hi", "x_lo", "x_hi", "px_lo", "px_hi", "bytes", "txt_lo", "txt_hi"):
+                    m[f] = t[f]
+                lines.append(json.dumps(m))
+    else:
+        c.drift("the MPI typed/run-time recorder did not build offline: distributed compositions not exercised: " +
+                " | ".join((b[1] or "")[-200:] for b in mb if not b[0]))
     lines.append('{"e":"End"}')
     trace = c.path("c14.ndjson")
     open(trace, "w").write("\n".join(lines) + "\n")
@@ -413,6 +452,8 @@ def run(c):
             c.nontrivial.add(hashlib.sha1((r["comp"] + json.dumps(r["t"], sort_keys=True)).encode()).hexdigest()[:12])
         elif r.get("k") in ("equivb", "equivp") and r["it_t"] >= 0 and not r["threw_t"]:
             c.nontrivial.add((r["k"], r.get("c") or r.get("cls"), r.get("what") or r.get("nullspace"), r["mat"], r["px_lo_t"]))
+        elif r.get("k") == "mequiv" and r["it"] > 0:
+            c.nontrivial.add(("mequiv", r["idx"], r["mat"], r["cfg"], r["np"], r["x_lo"]))
         elif r.get("k") == "equiv" and r["it"] > 0:
             c.nontrivial.add(("equiv", r["idx"], r["mat"], r["cfg"], r.get("seed"), r["x_lo"]))
     for want in ("tree", "schema", "equiv", "enum", "badtype", "unkrt", "equivp", "equivb", "rebuilt", "array"):
